@@ -725,6 +725,66 @@ pub fn novel_words() -> &'static (Vec<String>, Vec<String>) {
     })
 }
 
+/// Punctuation literals of the grammar file that the baseline grammar does not have (a change
+/// that extends the syntax names its new tokens there). Used to build a few odd imports / types.
+pub fn novel_tokens() -> &'static Vec<String> {
+    static TOKS: std::sync::OnceLock<Vec<String>> = std::sync::OnceLock::new();
+    TOKS.get_or_init(|| {
+        let base: std::collections::BTreeSet<&str> = include_str!("../baseline_dict.txt").lines().collect();
+        let text = std::fs::read_to_string("/repo/src/aidl.lalrpop").unwrap_or_default();
+        let mut out: std::collections::BTreeSet<String> = std::collections::BTreeSet::new();
+        let b: Vec<char> = text.chars().collect();
+        let mut i = 0;
+        while i < b.len() {
+            if b[i] == '"' {
+                let mut j = i + 1;
+                while j < b.len() && b[j] != '"' && b[j] != '\n' {
+                    j += 1;
+                }
+                if j < b.len() && b[j] == '"' {
+                    let lit: String = b[i + 1..j].iter().collect();
+                    if !lit.is_empty() && lit.len() <= 3 && lit.chars().all(|c| c.is_ascii_punctuation()) {
+                        let tagged = format!("token:{lit}");
+                        if !base.contains(tagged.as_str()) {
+                            out.insert(lit);
+                        }
+                    }
+                }
+                i = j + 1;
+            } else {
+                i += 1;
+            }
+        }
+        out.into_iter().collect()
+    })
+}
+
+/// All punctuation literals of the grammar file, tagged (for `aidl-sim dict`)
+pub fn grammar_tokens_tagged() -> Vec<String> {
+    let text = std::fs::read_to_string("/repo/src/aidl.lalrpop").unwrap_or_default();
+    let mut out: std::collections::BTreeSet<String> = std::collections::BTreeSet::new();
+    let b: Vec<char> = text.chars().collect();
+    let mut i = 0;
+    while i < b.len() {
+        if b[i] == '"' {
+            let mut j = i + 1;
+            while j < b.len() && b[j] != '"' && b[j] != '\n' {
+                j += 1;
+            }
+            if j < b.len() && b[j] == '"' {
+                let lit: String = b[i + 1..j].iter().collect();
+                if !lit.is_empty() && lit.len() <= 3 && lit.chars().all(|c| c.is_ascii_punctuation()) {
+                    out.insert(format!("token:{lit}"));
+                }
+            }
+            i = j + 1;
+        } else {
+            i += 1;
+        }
+    }
+    out.into_iter().collect()
+}
+
 /// Per-run generation knobs (swarm)
 #[derive(Clone, Debug)]
 pub struct GenKnobs {
@@ -919,7 +979,7 @@ fn gen_base_type(rng: &mut Rng, u: &Universe, imports: &[String], fwd: &[String]
         if imports.is_empty() { 0 } else { 45 }, // simple name of an import
         if fwd.is_empty() { 0 } else { 12 },     // forward-declared name
         if imports.is_empty() { 0 } else { 8 },  // fully qualified import
-        if imports.is_empty() { 0 } else { 6 },  // partially qualified import
+        if imports.is_empty() { 0 } else { 9 },  // partially qualified import / nested-type look
         10,                                      // primitive
         6,                                       // String / CharSequence
         6,                                       // built-in by name
@@ -941,6 +1001,11 @@ fn gen_base_type(rng: &mut Rng, u: &Universe, imports: &[String], fwd: &[String]
             }
         }
         2 => Ty::Named(rng.pick(imports).clone()),
+        3 if rng.pct(35) => {
+            // a nested-type look: <simple name of an import>.<Name>
+            let i = rng.pick(imports);
+            Ty::Named(format!("{}.{}", i.rsplit('.').next().unwrap(), rng.pick(&u.names)))
+        }
         3 => {
             let i = rng.pick(imports);
             let parts: Vec<&str> = i.split('.').collect();
@@ -1051,6 +1116,17 @@ pub fn gen_header(rng: &mut Rng, u: &Universe, k: &GenKnobs) -> (Vec<String>, Ve
             rng.pick(&keys).clone()
         };
         imports.push(choice);
+    }
+    // syntax a change introduced: a new punctuation token in place of an import's last segment
+    let nt = novel_tokens();
+    if !nt.is_empty() {
+        for i in 0..imports.len() {
+            if rng.pct(35) {
+                if let Some((head, _)) = imports[i].clone().rsplit_once('.') {
+                    imports[i] = format!("{head}.{}", rng.pick(nt));
+                }
+            }
+        }
     }
     let nf = rng.range(0, k.max_fwd);
     let mut fwd: Vec<String> = Vec::new();
